@@ -696,54 +696,7 @@ Definition ext_json_mismatches (l : list ext_json_case) : list nat := mismatches
    \u0050rivate_key ... are private_key to every JSON decoder), ignoring case as encoding/json matches field names.
    sjson: a JSON document with member names and strings as SPELLED in the text (the literal bodies between the quotes). *)
 Local Open Scope N_scope.
-Definition hex_val (c : ascii) : option N :=
-  let n := N_of_ascii c in
-  if (N.leb 48 n && N.leb n 57)%bool then Some (n - 48)
-  else if (N.leb 65 n && N.leb n 70)%bool then Some (n - 55)
-  else if (N.leb 97 n && N.leb n 102)%bool then Some (n - 87)
-  else None.
-(* UTF-8 of a code point of the basic plane that is not a surrogate (those come in pairs: outside this model) *)
-Definition utf8 (cp : N) : option string :=
-  if N.ltb cp 128 then Some (String (ascii_of_N cp) "")
-  else if N.ltb cp 2048 then Some (String (ascii_of_N (192 + cp / 64)) (String (ascii_of_N (128 + cp mod 64)) ""))
-  else if (N.leb 55296 cp && N.leb cp 57343)%bool then None
-  else Some (String (ascii_of_N (224 + cp / 4096)) (String (ascii_of_N (128 + (cp / 64) mod 64)) (String (ascii_of_N (128 + cp mod 64)) ""))).
-(* the string a JSON string literal body denotes; None: not a valid body (raw control character, raw quote, bad escape) *)
-Fixpoint unescape (s : string) : option string :=
-  match s with
-  | EmptyString => Some EmptyString
-  | String c r =>
-    if Ascii.eqb c "\"%char then
-      match r with
-      | String e r1 =>
-        let simple (x : ascii) := option_map (String x) (unescape r1) in
-        if Ascii.eqb e """"%char then simple """"%char
-        else if Ascii.eqb e "\"%char then simple "\"%char
-        else if Ascii.eqb e "/"%char then simple "/"%char
-        else if Ascii.eqb e "b"%char then simple (ascii_of_N 8)
-        else if Ascii.eqb e "f"%char then simple (ascii_of_N 12)
-        else if Ascii.eqb e "n"%char then simple (ascii_of_N 10)
-        else if Ascii.eqb e "r"%char then simple (ascii_of_N 13)
-        else if Ascii.eqb e "t"%char then simple (ascii_of_N 9)
-        else if Ascii.eqb e "u"%char then
-          match r1 with
-          | String h1 (String h2 (String h3 (String h4 r2))) =>
-            match hex_val h1, hex_val h2, hex_val h3, hex_val h4 with
-            | Some a, Some b, Some c', Some d =>
-              match utf8 (((a * 16 + b) * 16 + c') * 16 + d), unescape r2 with
-              | Some u, Some t => Some (u ++ t)
-              | _, _ => None
-              end
-            | _, _, _, _ => None
-            end
-          | _ => None
-          end
-        else None
-      | EmptyString => None
-      end
-    else if (Ascii.eqb c """"%char || N.ltb (N_of_ascii c) 32)%bool then None
-    else option_map (String c) (unescape r)
-  end.
+(* hex_val, utf8, unescape (the meaning of a JSON string literal body): Lib/GoJson.v *)
 
 Inductive sjson :=
 | SNull | SBool (b : bool) | SNum (lit : string) | SStr (lit : string)
